@@ -379,6 +379,9 @@ func calHandler(args []string) (string, []string) {
 	}
 	ct := c.ct
 	switch {
+	case (op == "other-table" || op == "abuse") && len(nums) == 1:
+		calAbuse(c, op, nums[0])
+		return "ok", nil
 	case op == "jdto" && len(nums) == 1:
 		var ps propSink
 		jd := nums[0]
